@@ -665,8 +665,12 @@ func (e *Engine) defaultHavoc(fr *Frame, st *State, key string, cc *ssa.CallComm
 				if len(a.Fs) == 2 && a.Fs[0].T != nil {
 					if id, ok := a.Fs[0].T.intVal(); ok && id.IsInt64() && typeIDTypes[id.Int64()] != nil {
 						dt := typeIDTypes[id.Int64()]
-						if _, isPtr := dt.Underlying().(*types.Pointer); isPtr {
+						switch dt.Underlying().(type) {
+						case *types.Pointer:
 							e.havocObject(st, Val{T: a.Fs[1].T}, dt)
+						case *types.Slice, *types.Map:
+							// sort.Slice(xs, less), rand.Shuffle...: the elements behind a boxed slice / map are reachable
+							e.havocObject(st, e.unbox(st, a.Fs[1].T, dt), dt)
 						}
 					}
 				}
